@@ -3,11 +3,13 @@
 Require Extraction.
 Require Import ExtrOcamlBasic.
 From Coq Require Import ZArith List.
-From LasV Require Import Lib.Base Gen.GenGlobalEncoding Gen.GenFormatBits Model.GlobalEnc.
+From LasV Require Import Lib.Base Lib.Layout Gen.GenGlobalEncoding Gen.GenFormatBits Model.GlobalEnc Model.Las.
 Extraction Language OCaml.
 Extraction "../ocaml/model.ml"
   Z.add Z.mul Z.sub Z.div_eucl Z.compare Z.of_nat Z.to_nat
   le_enc le_dec to_bytes read_exact
   ge_get ge_set ge_run
   is_point_format_compressed compressed_id_to_uncompressed uncompressed_id_to_compressed
-  least_significant_bit_set.
+  least_significant_bit_set
+  null_pad cut_nul enc_vlrs dec_vlrs enc_header dec_header file_of wopen wstep wrun aopen apoints aclose arun
+  read_file read_records compat std_size.
